@@ -2,7 +2,7 @@
 # dev helper: rebuild harness only and run a few runs
 set -e
 S=${S:-/var/tmp/verif-s1}
-VERIF_KEEP_COPY=1 /verif/bin/build.sh $S >/dev/null
+/verif/bin/build.sh $S >/dev/null
 cd $S; mkdir -p rp; rm -f rp/*
 VERIF_REPLAY_DIR=$S/rp VERIF_PROP=${1:-C01} VERIF_SEED=${2:-1} VERIF_FROM=${3:-0} VERIF_TO=${4:-50} ./harness.test -test.run TestWorker > out.jsonl 2> err.txt || { tail -50 err.txt; }
 python3 - <<'PY'
